@@ -148,8 +148,13 @@ SOLIDS = {
 }
 
 
-def polyhedron_body(sname, convex, batch):
-    boxes, nc = SOLIDS[sname]
+def polyhedron_body(sname, convex, batch, resize=False):
+    boxes0, nc = SOLIDS[sname]
+    boxes = boxes0
+    if resize:
+        # evaluate once, double every length through the volume setter (x 8; the setters scale about the origin), evaluate
+        # again: F is the transform of the shape as it is now, not of the shape some cache remembers
+        boxes = [(tuple(2 * c for c in lo), tuple(2 * c for c in hi)) for lo, hi in boxes0]
 
     def body(H, V):
         import coxeter.shapes as S
@@ -157,7 +162,7 @@ def polyhedron_body(sname, convex, batch):
 
         q = _q(H, V)
         if nc is None:
-            lo, hi = boxes[0]
+            lo, hi = boxes0[0]
             verts = [(x, y, z) for x in (lo[0], hi[0]) for y in (lo[1], hi[1]) for z in (lo[2], hi[2])]
             faces = SH.convex_facets(verts)
         else:
@@ -169,6 +174,9 @@ def polyhedron_body(sname, convex, batch):
             s = S.Polyhedron(H.arr(P), [rnp.array(f) for f in faces], faces_are_convex=True)
         rows = {"single": [q], "with_zero": [q, [0 * c for c in q], [-c for c in q]]}[batch]
         rho = F(5, 4)
+        if resize:
+            s.compute_form_factor_amplitude(H.arr(rows), density=H.num(rho))
+            s.volume = 8 * s.volume
         res = s.compute_form_factor_amplitude(H.arr(rows), density=H.num(rho))
         vol = sum((hi[0] - lo[0]) * (hi[1] - lo[1]) * (hi[2] - lo[2]) for lo, hi in boxes)
         for i, row in enumerate(rows):
@@ -253,6 +261,11 @@ def obligations(tier, seed):
         add("C12/%s.%s.%s" % ("ConvexPolyhedron" if convex else "Polyhedron", sname, batch), polyhedron_body(sname, convex, batch),
             "axis-aligned solid %s, wave vector free; batch form %s" % (sname, batch), paths=3)
     # centres in general position, at the origin, on a coordinate axis and in a coordinate plane
+    for sname, convex in ([("box_off", True), ("cube", False)] if tier == "quick" else [(s, c) for s in SOLIDS for c in ((True, False) if SOLIDS[s][1] is None else (False,))]):
+        if sname not in SOLIDS:
+            continue
+        add("C12/%s.%s.single.resized" % ("ConvexPolyhedron" if convex else "Polyhedron", sname), polyhedron_body(sname, convex, "single", resize=True),
+            "axis-aligned solid %s evaluated, doubled in size through the volume setter, evaluated again; wave vector free" % sname, paths=3)
     for centre, batch in ([((0, 0, 0), "single"), ((2, -1, 3), "with_zero"), ((2, 0, 0), "single"), ((0, -1, 3), "single")] if tier == "quick" else
                           [((0, 0, 0), "single"), ((0, 0, 0), "with_zero"), ((2, -1, 3), "single"), ((2, -1, 3), "with_zero"), ((-4, 5, 1), "single"),
                            ((2, 0, 0), "single"), ((0, -1, 3), "single"), ((0, 0, -2), "with_zero"), ((3, 1, 0), "single")]):
